@@ -85,7 +85,7 @@ def field_unit(kind, cols, u):
 
 
 def scale_tok(tok, f):
-    if tok.startswith("n"):
+    if tok.startswith("n") and tok != "nan":
         q = Fraction(tok[1:]) * f
         return "n" + (str(q.numerator) if q.denominator == 1 else f"{q.numerator}/{q.denominator}")
     return tok
@@ -248,16 +248,15 @@ class RefWorld:
 
     def subset(self, d, op):
         n = d.n
-        has_leaf = any(True for _ in self.leaves(d.fields))
         if "mask" in op:
             m = op["mask"]
-            if has_leaf and len(m) != n:
+            if len(m) != n:
                 raise Expected("index")
             sel = [i for i, b in enumerate(m) if b]
             count = len(sel)
         else:
             ints = op["ints"]
-            if has_leaf and any(i < -n or i >= n for i in ints):
+            if any(i < -n or i >= n for i in ints):
                 raise Expected("index")
             sel = [i % n if n else 0 for i in ints]
             count = len(ints)
@@ -456,14 +455,14 @@ def diff_obj(a, b, where):
     if "same_as" in a:
         return None
     if a["kind"] != b["kind"] or a["ndim"] != b["ndim"] or a["cols"] != b["cols"]:
-        return ("shape", where + ":" + b["kind"], f"{a['kind']}/{a['ndim']}/{a['cols']} vs {b['kind']}/{b['ndim']}/{b['cols']}")
+        return ("shape", where, f"{a['kind']}/{a['ndim']}/{a['cols']} vs {b['kind']}/{b['ndim']}/{b['cols']}")
     if len(a["rows"]) != len(b["rows"]):
-        return ("rows", where + ":" + b["kind"], f"{len(a['rows'])} rows, expected {len(b['rows'])}")
+        return ("rows", where, f"{b['kind']}: {len(a['rows'])} rows, expected {len(b['rows'])}")
     if a["rows"] != b["rows"]:
         i = next(i for i, (x, y) in enumerate(zip(a["rows"], b["rows"])) if x != y)
-        return ("contents", where + ":" + b["kind"], f"row {i}: {a['rows'][i]} expected {b['rows'][i]}")
+        return ("contents", where, f"{b['kind']} row {i}: {a['rows'][i]} expected {b['rows'][i]}")
     for att in ("other", "ref_pos"):
-        r = diff_obj(a[att], b[att], where + "." + att)
+        r = diff_obj(a[att], b[att], att)
         if r:
             return r
     return None
@@ -473,7 +472,7 @@ def diff_fields(A, B, where):
     if [f["name"] for f in A] != [f["name"] for f in B]:
         return ("fields", where, f"{[f['name'] for f in A]} expected {[f['name'] for f in B]}")
     for a, b in zip(A, B):
-        w = "leaf" if where == "" else "nested"
+        w = "field"
         if a.get("coll") != b.get("coll"):
             return ("fields", w, f"{a['name']}: collection vs leaf")
         if a.get("coll"):
@@ -491,11 +490,11 @@ def diff_fields(A, B, where):
         if r:
             return (r[0], r[1], f"{where}{a['name']}: {r[2]}")
         if a["num_obs"] != b["num_obs"]:
-            return ("field-num_obs", w + ":" + b["kind"], f"{where}{a['name']}: {a['num_obs']} expected {b['num_obs']}")
+            return ("field-num_obs", w, f"{where}{a['name']}: {a['num_obs']} expected {b['num_obs']}")
         if a["unit"] != b["unit"]:
-            return ("unit", w + ":" + b["kind"], f"{where}{a['name']}: {a['unit']} expected {b['unit']}")
+            return ("unit", w, f"{where}{a['name']}: {a['unit']} expected {b['unit']}")
         if a["level"] != b["level"]:
-            return ("level", w + ":" + b["kind"], f"{where}{a['name']}")
+            return ("level", w, f"{where}{a['name']}")
     return None
 
 
@@ -525,8 +524,19 @@ def op_label(op):
     if o == "subset":
         return "subset-" + ("mask" if "mask" in op else "ints")
     if o == "merge":
-        return "merge-sort" if op.get("sort_by") else "merge"
+        # merging without sorting is a sequence of extends
+        return "merge-sort" if op.get("sort_by") else "extend"
     return o
+
+
+def _violate(ctx, key, what, case):
+    """report a key at most three times per run (the framework keeps only the first 50 reports)"""
+    seen = ctx.extra.setdefault("oracle_failures_by_key", {})
+    seen[key] = seen.get(key, 0) + 1
+    if seen[key] <= 3:
+        ctx.violate(key, what, case)
+    else:
+        ctx.count("oracle_failures")
 
 
 def judge(ctx, op, concrete, status, out, exp_status, exp_out, rw, rf):
@@ -541,12 +551,12 @@ def judge(ctx, op, concrete, status, out, exp_status, exp_out, rw, rf):
         return
     if status != "ok":
         site = call_site(rw.last_exc) if rw.last_exc is not None else "?"
-        ctx.violate(f"{lab}:raises:{out}@{site}",
+        _violate(ctx, f"{lab}:raises:{out}@{site}",
                     f"{lab} raised {type(rw.last_exc).__name__}: {rw.last_exc} where the table model has a result", case)
         return
     d = diff_world(real_struct(rw), rf.struct(), op.get("d"))
     if d is not None:
-        ctx.violate(f"{lab}:{d[0]}@{d[1]}", f"after {lab}: {d[2]}", case)
+        _violate(ctx, f"{lab}:{d[0]}@{d[1]}", f"after {lab}: {d[2]}", case)
         return
     if out != exp_out:
-        ctx.violate(f"{lab}:result", f"{lab} returned {out}, expected {exp_out}", case)
+        _violate(ctx, f"{lab}:result", f"{lab} returned {out}, expected {exp_out}", case)
